@@ -391,6 +391,7 @@ package main
 //@   assert before Set#1: [offeredComplete] forall s string, k int :: (s in c.svcAds) && 0 <= k && k < len(c.svcAds[s]) && bgp.ForPeer(c.svcAds[s][k], peer.cfg.Name) ==> (c.svcAds[s][k] in ads)
 //@   assert before Set#1: [handedOver] sameSlice(arg0, ads)
 //@   loop 1 binds ads
+//@   loop 1 complete [everyService]
 //@   loop 1 invariant allAds == nil || fresh(allAds)
 //@   loop 1 invariant forall j int :: 0 <= j && j < len(allAds) ==> allAds[j] != nil
 //@   loop 1 invariant [all] forall s string, k int :: (s in visited) && 0 <= k && k < len(c.svcAds[s]) ==> (c.svcAds[s][k] in allAds)
@@ -421,10 +422,13 @@ package main
 //@   assert before updateAds: [others] forall s string :: s != name ==> (s in c.svcAds) == old(s in c.svcAds) && sameSlice(c.svcAds[s], old(c.svcAds[s]))
 //@   assert before len#1: [reset] len(c.svcAds[name]) == 0
 //@   loop 1 binds lbIP
+//@   loop 1 complete [everyAddress]
 //@   loop 1 invariant BGPPoolOK(pool) && ValidIPs(lbIPs) && (c.svcAds[name] == nil || fresh(c.svcAds[name]))
 //@   loop 2 binds adCfg
+//@   loop 2 complete [everyPoolAdvertisement]
 //@   loop 2 invariant BGPPoolOK(pool) && ValidIPs(lbIPs) && (c.svcAds[name] == nil || fresh(c.svcAds[name]))
 //@   loop 3 binds comm
+//@   loop 3 complete [everyCommunity]
 //@   loop 3 invariant BGPPoolOK(pool) && ValidIPs(lbIPs) && (c.svcAds[name] == nil || fresh(c.svcAds[name])) && (ad.Communities == nil || fresh(ad.Communities))
 //@   loop 3 invariant 0 <= idx(1) && idx(1) < len(lbIPs) && 0 <= idx(2) && idx(2) < len(pool.BGPAdvertisements) && adCfg == pool.BGPAdvertisements[idx(2)] && Sel(c, adCfg)
 //@   loop 3 invariant ad.Prefix != nil && net.maskOnes(ad.Prefix.Mask) == ite(net.is4(lbIP), adCfg.AggregationLength, adCfg.AggregationLengthV6) && net.maskBits(ad.Prefix.Mask) == ite(net.is4(lbIP), 32, 128)
@@ -612,6 +616,7 @@ package main
 //@   assert before SetBalancer: [all] arg2.allInterfaces == (exists j int :: 0 <= j && j < len(pool.L2Advertisements) && L2Sel(pool.L2Advertisements[j], c.myNode) && pool.L2Advertisements[j].AllInterfaces)
 //@   assert before SetBalancer: [ifs] !arg2.allInterfaces ==> (forall x string :: (x in arg2.interfaces) == (exists j int, k int :: 0 <= j && j < len(pool.L2Advertisements) && L2Sel(pool.L2Advertisements[j], c.myNode) && 0 <= k && k < len(pool.L2Advertisements[j].Interfaces) && pool.L2Advertisements[j].Interfaces[k] == x))
 //@   assert before SetBalancer: [usable] arg2.allInterfaces || (exists k int :: 0 <= k && k < len(ifs) && (ifs[k] in arg2.interfaces))
+//@   loop 1 complete [everyAddress]
 //@   loop 1 binds lbIP
 //@   loop 1 invariant c.announcer != nil && lockstate(c.announcer.RWMutex) == 0
 
